@@ -614,6 +614,14 @@ class Exec:
             else:
                 v = (1 << w) - 1 if m.group(2) == "MAX" else 0
             return z3.BitVecVal(v, w)
+        m = re.fullmatch(r"([iu](?:8|16|32|64|128|size))::(MAX|MIN)", t)
+        if m:
+            ty, w = m.group(1), INT_W[m.group(1)]
+            if is_signed(ty):
+                v = (1 << (w - 1)) - 1 if m.group(2) == "MAX" else -(1 << (w - 1))
+            else:
+                v = (1 << w) - 1 if m.group(2) == "MAX" else 0
+            return z3.BitVecVal(v, w)
         if t.startswith("ZeroSized: "):
             return FnItem(t[len("ZeroSized: "):])
         if t == "()":
@@ -1541,6 +1549,32 @@ def m_vec_new(ex, st, fr, callee, args, argtys, dty):
     return Seq()
 
 
+def m_int_from(ex, st, fr, callee, args, argtys, dty):
+    """<iN as From<bool|uM|iM>>::from (lossless widening)."""
+    v = args[0]
+    w = INT_W.get(dty.strip())
+    if w is None:
+        return NotImplemented
+    if z3.is_bool(v):
+        return z3.If(v, z3.BitVecVal(1, w), z3.BitVecVal(0, w))
+    if z3.is_bv(v) and v.size() <= w:
+        if v.size() == w:
+            return v
+        return z3.SignExt(w - v.size(), v) if is_signed(argtys[0].strip()) else z3.ZeroExt(w - v.size(), v)
+    return NotImplemented
+
+
+def m_enum_eq_unit(ex, st, fr, callee, args, argtys, dty):
+    """<Enum as PartialEq>::eq where one side is a concrete field-less variant."""
+    a, b = _deref_val(ex, st, args[0]), _deref_val(ex, st, args[1])
+    for x, y, ty in ((a, b, argtys[1]), (b, a, argtys[0])):
+        if isinstance(x, Agg) and x.variant is not None and not x.fields:
+            d = ex.discr(st, y, strip_ref(strip_ref(ty)))
+            r = d == ex.discr_of_variant(x.ty, x.variant)
+            return z3.Not(r) if callee.rstrip().endswith("::ne") else r
+    return NotImplemented
+
+
 def _as_seq(ex, st, v):
     v = _deref_val(ex, st, v)
     if isinstance(v, Seq):
@@ -1709,6 +1743,8 @@ STD_MODELS = [
     (r"^<(&?str|&?&?std::string::String|&&str|std::string::String) as PartialEq(<.*>)?>::(eq|ne)$", m_str_eq),
     (r"^<.* as (std::ops::)?Try>::branch$", m_try_branch),
     (r"^<.* as (std::ops::)?FromResidual<.*>>::from_residual$", m_from_residual),
+    (r"^<(Token|NodeTy|Node|Core) as PartialEq>::(eq|ne)$", m_enum_eq_unit),
+    (r"^<[iu](8|16|32|64|128|size) as From<(bool|[iu]\d+|char)>>::from$", m_int_from),
     (r"^Vec::<.*>::new$", m_vec_new),
     (r"^Vec::<.*>::push$", m_vec_push),
     (r"^Vec::<.*>::append$", m_vec_append),
